@@ -3,8 +3,9 @@ CONSTANTS
   Threads = {t1, t2, t3}
   Socks = {s1, s2}
   AtomicCheck = TRUE
+  DeadBind = FALSE
   MaxDeliver = 2
-INVARIANT NoStuckLive
+INVARIANT NoStuck
 INVARIANT ResultTyped
 PROPERTY Eventually
 CHECK_DEADLOCK FALSE
